@@ -79,16 +79,13 @@ impl PayloadBuffer {
             return Err(PayloadError::Overflow);
         }
 
-        let mut appended = false;
-
         for _ in 0..MAX_READY_CHUNKS_PER_POLL {
             if self.pending.is_some() {
-                appended |= self.append_pending()?;
+                self.append_pending()?;
 
                 if self.pending.is_some() || self.buf.len() >= self.buffer_limit {
-                    if appended {
-                        cx.waker().wake_by_ref();
-                    }
+                    // the stream has not returned Pending: nobody else will wake the task
+                    cx.waker().wake_by_ref();
                     return Ok(());
                 }
 
@@ -98,12 +95,11 @@ impl PayloadBuffer {
             match Pin::new(&mut self.stream).poll_next(cx) {
                 Poll::Ready(Some(Ok(data))) => {
                     self.pending = Some(data);
-                    appended |= self.append_pending()?;
+                    self.append_pending()?;
 
                     if self.pending.is_some() || self.buf.len() >= self.buffer_limit {
-                        if appended {
-                            cx.waker().wake_by_ref();
-                        }
+                        // the stream has not returned Pending: nobody else will wake the task
+                        cx.waker().wake_by_ref();
                         return Ok(());
                     }
                 }
@@ -116,9 +112,9 @@ impl PayloadBuffer {
             }
         }
 
-        if appended {
-            cx.waker().wake_by_ref();
-        }
+        // The per-poll chunk budget is used up while the stream was still ready (possibly with
+        // empty chunks only): yield, but make sure the task is polled again.
+        cx.waker().wake_by_ref();
 
         Ok(())
     }
